@@ -19,12 +19,62 @@ RULE = (
     "candidate plates"
 )
 ASSUMPTIONS = ["batches are subsets of the unobserved plates of the screen", "scores are finite or -inf (no NaN)"]
-REQUIRED = {"coverage_checks": {"quick": 800, "thorough": 10000}, "conditioning_checks": {"quick": 1500, "thorough": 20000}, "selections_checked": {"quick": 1800, "thorough": 25000}, "cli_runs": {"quick": 30, "thorough": 500}, "selections_none": {"quick": 20, "thorough": 400}}
+REQUIRED = {"dbal_end_to_end_runs_with_batch": {"quick": 5, "thorough": 60}, "dbal_scores_vs_reference": {"quick": 30, "thorough": 500}, "coverage_checks": {"quick": 800, "thorough": 10000}, "conditioning_checks": {"quick": 1500, "thorough": 20000}, "selections_checked": {"quick": 1800, "thorough": 25000}, "cli_runs": {"quick": 30, "thorough": 500}, "selections_none": {"quick": 20, "thorough": 400}}
 N_SCREENS = {"quick": 960, "thorough": 12800}
 
 
 def cond_key(screen, r):
     return (int(screen.sample_ids[r]),) + tuple(int(x) for x in screen.treatment_ids[r])
+
+
+def dbal_end_to_end(rec, rng, screen, holder, dm, plate_rows, cand, batch, score_chunk, w):
+    """The real GaussianDBALScorer behind the real score_chunk: each candidate's score must be the direct DBAL
+    estimator (vf/oracles/dbal_ref.py) evaluated on the candidate's and the batch plates' experiments reduced to one
+    experiment per distinct condition - whatever the scorer does internally with views that share the batch rows."""
+    from batchie.scoring.gaussian_dbal import GaussianDBALScorer
+    from ..oracles import dbal_ref
+
+    if not cand:
+        return
+    T = holder.n_thetas
+    d = np.asarray(dm.to_dense(), dtype=float)
+    nch = int(rng.integers(1, 4))
+    got = {}
+    try:
+        for c in range(nch):
+            h = score_chunk(GaussianDBALScorer(max_chunk=int(rng.choice([1, 2, 50])), max_triples=5000), holder, screen, dm, rng=np.random.default_rng(int(rng.integers(0, 2**31))), n_chunks=nch, chunk_index=c, batch_plate_ids=list(batch) or None)
+            for p_, s_ in zip(h.plate_ids.tolist(), h.scores.tolist()):
+                got[int(p_)] = float(s_)
+    except Exception as e:
+        rec.violation("C06/score_chunk/raises", "score_chunk with GaussianDBALScorer raised %r\n%s" % (e, kit.tb()), w)
+        return
+    rec.count("dbal_end_to_end_runs")
+    if batch:
+        rec.count("dbal_end_to_end_runs_with_batch")
+    batch_rows = set()
+    for b in batch:
+        batch_rows |= set(plate_rows[b])
+    rec.check(sorted(got) == sorted(cand), "C06/coverage/not-each-candidate-once", lambda: "DBAL chunks scored %r, candidates are %r" % (sorted(got), sorted(cand)), w)
+    for p_ in cand:
+        if p_ not in got:
+            continue
+        rows = sorted(set(plate_rows[p_]) | batch_rows)
+        seen, keep = set(), []
+        for r in rows:
+            k_ = cond_key(screen, r)
+            if k_ not in seen or not batch:  # without a batch the plate is scored as it is, duplicates included
+                seen.add(k_)
+                keep.append(r)
+        sel = np.zeros(screen.size, dtype=bool)
+        sel[keep] = True
+        view = screen.subset(sel)
+        m = [np.asarray(th.predict_conditional_mean(view), dtype=float).tolist() for th in holder.thetas]
+        v = [np.asarray(th.predict_conditional_variance(view), dtype=float).tolist() for th in holder.thetas]
+        ref = dbal_ref.plate_score(m, v, d.tolist())
+        a, b_ = float(got[p_]), float(ref)
+        ok = a == b_ or (np.isfinite(a) and np.isfinite(b_) and abs(a - b_) <= 1e-9 * (1.0 + abs(b_)))
+        rec.count("dbal_scores_vs_reference")
+        rec.check(ok, "C06/conditioning/dbal-score-not-of-the-deduplicated-union", lambda: "plate %d scored %r by GaussianDBALScorer through score_chunk (batch %r); the direct estimator on its %d experiments (plate + batch, one per distinct condition when a batch exists) gives %r" % (p_, a, list(batch), len(keep), b_), w)
 
 
 def run_shard(rec, tier, seed, shard, nshards):
@@ -284,6 +334,7 @@ def run_shard(rec, tier, seed, shard, nshards):
                 continue
             rec.case(("cli", kit.array_hash(screen.observations), n_chunks, tuple(batch), use_pol), nontrivial=len(cand) >= 2)
             rec.count("cli_runs")
+            dbal_end_to_end(rec, rng, screen, holder, dm, plate_rows, cand, batch, score_chunk, w)
             comb = ChunkedScoresHolder.concat([ChunkedScoresHolder.load_h5(o) for o in outs])
             ids = sorted(int(x) for x in comb.plate_ids.tolist())
             rec.check(ids == cand, "C06/coverage/not-each-candidate-once", lambda: "CLI chunks scored %r, candidates are %r" % (ids, cand), w)
